@@ -374,5 +374,5 @@ def attach_all(run, rt):
     for name, post in (("rolling_median", post_rolling_median), ("kaiser", post_kaiser), ("savgol", post_savgol)):
         traced.append((f"smoothing.{name}", getattr(S, name)))
         rt.attach(S, name, name=f"smoothing.{name}", pre=_snap_smooth, post=post, on_exc=exc_smooth(name))
-    traced += [("smoothing._width2wing", S._width2wing), ("smoothing._pad_array", S._pad_array), ("smoothing.check_inputs", S.check_inputs)]
+    traced += [("smoothing._width2wing", rt.opt(S, "_width2wing")), ("smoothing._pad_array", rt.opt(S, "_pad_array")), ("smoothing.check_inputs", rt.opt(S, "check_inputs"))]
     return traced
